@@ -276,6 +276,7 @@ class ApplyOptimizer(Contract):
 # ==================================================================================================
 # C08 / C05: one unfolding step with binders that clash -- value preservation with NAMED bound variables
 # ==================================================================================================
+SUMOP = SUM  # the semiring sum used as a binary operator (x + h); DISTRIBUTIVE_OPS holds (SUM, PROD)
 class ConP:
     """Contraction with named bound variables over the free semiring: the value at an environment is the red_op-reduction over
     its OWN reduced variables (shadowing any outer variable of the same name) of the bin_op-product of its terms"""
@@ -302,7 +303,7 @@ class ConP:
             v = None
             for t in self.terms:
                 tv = t.at({k_: e[k_] for k_ in t.inputs})
-                v = tv if v is None else (v * tv if self.bin_op is PROD else v + tv)
+                v = tv if v is None else (v * tv if self.bin_op is PROD else v + tv)  # SUMOP: pointwise sum
             acc = v if acc is None else (acc + v if self.red_op is SUM else acc * v)
         return acc
 
@@ -348,8 +349,8 @@ class UnfoldSharedBinders(Contract):
     qualname = "unfold_contraction_generic_tuple"
     total = True
     mutants = (
-        ("clashing binders are not renamed (the pinned-tree defect)", "        if clash:\n            v = reflect.interpret(Contraction, *v._alpha_convert(clash))\n", ""),
-        ("only names bound by siblings count as taken", "*(frozenset(t.inputs) | frozenset(t.bound) for t in terms[:i] + terms[i + 1 :])", "*(frozenset(t.bound) for t in terms[:i] + terms[i + 1 :])"),
+        ("bound names are not refreshed (the pinned-tree defect)", "            v = reflect.interpret(Contraction, *v._alpha_convert(fresh))\n", "            pass\n"),
+        ("refreshed only when there are siblings (a clash with the outer reduction goes unnoticed)", "        if v.bound and (len(terms) > 1 or reduced_vars):", "        if v.bound and len(terms) > 2:"),
     )
 
     def cases(self):
@@ -369,6 +370,10 @@ class UnfoldSharedBinders(Contract):
         out["y*z"] = (NULL, PROD, [], (y, z))
         out["sum_j f[j]*z"] = (SUM, PROD, ["j"], (f, z))
         out["h*x (no clash)"] = (NULL, PROD, [], (h, x))
+        # the clash sits one level down: S = x + h occurs twice, each occurrence contains the reduction x
+        S = ConP(NULL, SUMOP, [], x, h)
+        out["(x+h)*(x+h)"] = (NULL, PROD, [], (S, S))
+        out["sum_j f[j]*(x+h)"] = (SUM, PROD, ["j"], (f, S))
         return out
 
     def structures(self, tier):
